@@ -11,11 +11,11 @@ P, S, H, G, V = "FFSM2_ENABLE_PLANS", "FFSM2_ENABLE_SERIALIZATION", "FFSM2_ENABL
     "FFSM2_ENABLE_LOG_INTERFACE", "FFSM2_ENABLE_VERBOSE_DEBUG_LOG"
 
 
-def cfg(name, N=3, head=1, manual=0, L=4, cap=0, pay=0, ctx=1, inj=0, bare=0, feats=()):
+def cfg(name, N=3, head=1, manual=0, L=4, cap=0, pay=0, ctx=1, inj=0, bare=0, feats=(), scale=1.0):
     d = ["-DCFG_N=%d" % N, "-DCFG_HEAD=%d" % head, "-DCFG_MANUAL=%d" % manual, "-DCFG_L=%d" % L, "-DCFG_CAP=%d" % cap,
          "-DCFG_PAYLOAD=%d" % pay, "-DCFG_CTX=%d" % ctx, "-DCFG_INJ=%d" % inj, "-DCFG_BARE=%d" % bare] + ["-D" + f for f in feats]
     return {"name": name, "defs": d, "feats": set(feats), "N": N, "head": head, "manual": manual, "L": L, "cap": cap, "pay": pay,
-            "ctx": ctx, "inj": inj, "bare": bare}
+            "ctx": ctx, "inj": inj, "bare": bare, "scale": scale}
 
 
 # a pairwise-style cover of N x L x capacity x payload x context x injections x activation x root kind x features
@@ -36,6 +36,8 @@ CONFIGS = [
     cfg("peer4nolog", N=4, head=0, manual=0, L=2, cap=4, pay=2, ctx=2, feats=(P, S, H)),
     cfg("man2inj2", N=2, head=1, manual=1, L=1, cap=2, pay=5, ctx=0, inj=2, feats=(P, S, H, G)),
     cfg("n6log", N=6, head=0, manual=1, L=5, cap=1, pay=4, ctx=1, feats=(G,)),
+    # the extremes of the configuration types: largest substitution limit and task capacity (both uint8_t)
+    cfg("extreme", N=2, head=1, manual=0, L=255, cap=255, pay=1, ctx=1, feats=(P, S, H, G), scale=0.08),
 ]
 
 # bounded-exhaustive enumeration of guard decisions (C03, C04): K=0, N=3
@@ -218,7 +220,7 @@ def run_random(prop, tier, seed, verdict, tree, quick_cases=20000, thorough_case
         jobs = []
         for c, b in built:
             for sh in range(shards):
-                jobs.append((c, b.path, ["--cases", str(ncases), "--ops", str(ops), "--shard", str(sh), "--shards", str(shards)] + list(extra_args)))
+                jobs.append((c, b.path, ["--cases", str(max(50, int(ncases * c.get("scale", 1.0)))), "--ops", str(ops), "--shard", str(sh), "--shards", str(shards)] + list(extra_args)))
         r.run_jobs(jobs, timeout=600 if tier == "quick" else 7200)
     return r
 
@@ -367,7 +369,7 @@ def prop_c17(prop, tier, seed, verdict, tree):
         for c, b in built:
             for fill in range(6):
                 df = os.path.join(verdict.outdir, "pf-%s-%s-%d.bin" % (variant[0], c["name"], fill))
-                jobs.append((c, b.path, ["--cases", str(ncases), "--ops", "20", "--fill", str(fill), "--digestfile", df]))
+                jobs.append((c, b.path, ["--cases", str(max(50, int(ncases * c.get("scale", 1.0)))), "--ops", "20", "--fill", str(fill), "--digestfile", df]))
                 labels.append((c["name"], fill, df))
         r.run_jobs(jobs, timeout=900 if tier == "quick" else 7200)
         by_cfg = {}
@@ -450,13 +452,13 @@ def prop_c18(prop, tier, seed, verdict, tree):
             jobs = []
             for c, b in built:
                 for sh in range(shards):
-                    jobs.append((c, b.path, ["--cases", str(ncases), "--ops", "24", "--shard", str(sh), "--shards", str(shards), "--fill", str(1 + sh % 5)]))
+                    jobs.append((c, b.path, ["--cases", str(max(50, int(ncases * c.get("scale", 1.0)))), "--ops", "24", "--shard", str(sh), "--shards", str(shards), "--fill", str(1 + sh % 5)]))
             r.run_jobs(jobs, timeout=1800 if tier == "quick" else 14400, env=env, on_abnormal=abnormal)
         # allocation counters: operator new / malloc family wrapped; nothing may be called inside FFSM2 scope
         abuilt = r.build_many(cfgs, variant, flags=BASE_FLAGS + ["-DVERIF_COUNT_ALLOCS"], tag="-alloc",
                               link=["-Wl,--wrap=malloc,--wrap=calloc,--wrap=realloc,--wrap=free"])
         before = r.stats.get("allocations_in_ffsm2_scope", 0)
-        jobs = [(c, b.path, ["--cases", str(cases_for(tier, 3000, 60000)), "--ops", "24"]) for c, b in abuilt]
+        jobs = [(c, b.path, ["--cases", str(max(50, int(cases_for(tier, 3000, 60000) * c.get("scale", 1.0)))), "--ops", "24"]) for c, b in abuilt]
         res = r.run_jobs(jobs, timeout=1800)
         for c, sig, rr in res:
             n = int(rr.stats.get("allocations_in_ffsm2_scope", 0))
